@@ -4,7 +4,7 @@ from .. import common, gen, b1
 from .c03 import pair_loop, supertrait_items, draw_ord_fields
 
 NICHE = ["bool", "char", "NZ", "RefU8", "OptBox", "Inner", "Zst", "u8", "L"]
-REPRS = [None, None, None, "u8", "i8", "u16", "i32", "u64", "isize", "C", "C, u8", "u8, align(4)", "align(8)", "align(2)"]
+REPRS = [None, None, None, "u8", "i8", "u16", "i32", "u64", "isize", "C", "C, u8", "u8, align(4)", "align(8)", "align(2)", "align(2), u8", "align(4), i8"]
 INT_RANGE = {"u8": (0, 255), "i8": (-128, 127), "u16": (0, 65535), "i32": (-2**31, 2**31 - 1),
              "u64": (0, 2**63), "isize": (-2**40, 2**40)}
 
@@ -47,7 +47,7 @@ class P(b1.Plugin):
     ops = ("cmp", "pcmp", "cmpw", "pcmpw")
     driver_traits = (("ord", "Ord"),)
     rule = ("enum definitions with 1-4 variants over unit/tuple/named shapes, payload types with niches or zero size (bool, char, "
-            "NonZeroU8, &u8, Option<Box<u8>>, nested enum, ZST, u8), #[repr] in {none,u8,i8,u16,i32,u64,isize,C,'C, u8','u8, align(4)',"
+            "NonZeroU8, &u8, Option<Box<u8>>, nested enum, ZST, u8), #[repr] in {none,u8,i8,u16,i32,u64,isize,C,'C, u8','u8, align(4)','align(2), u8','align(4), i8',"
             "align(8),align(2)}, explicit discriminants incl. negative and >127/>32767 where the repr allows, written as literals or as expressions "
             "(`a << b`, `a & m`, `a | b`, `a ^ b`, the type-dependent `!k`, named constants `K`, `K + 0`, `self::K`); all ordered value pairs, "
             "each comparison repeated with both operands embedded in #[repr(C)] wrappers with different trailing bytes (ops cmpw/pcmpw). "
